@@ -441,6 +441,8 @@ def _cmp_orders(findings, where, lo, signed, bogus, kindname, payload_like):
 
 
 def _key(case, signed, bogus, explicit):
+    if not isinstance(signed, list) or not all(isinstance(x, int) and not isinstance(x, bool) for x in signed):
+        return None         # a broken signed rendering is a finding, never a harness fault
     nontrivial = len(signed) >= 2 and (any(isinstance(x, int) and x < 0 for x in signed)
                                        or [x for x in signed if x >= 0] != sorted(x for x in signed if x >= 0))
     if not nontrivial:
@@ -518,11 +520,12 @@ def _sub_names(dimdesc, valid_ids):
     return ["S%d" % (k + base) for k, i in enumerate(src) if oc.ins_valid(i, valid_ids)]
 
 
-def _eval_api(case, louts, ctx):
+def _eval_api(case, louts, ctx, lib=None):
+    """`lib`: observations made by an extension module's own runner (same keys as `_api_run`)."""
     findings = []
     vars_ = [gen.Var.from_json(d) for d in case["vars"]]
     survey = gen.survey_from_json(case["survey"])
-    lib = _api_run(case)
+    lib = _api_run(case) if lib is None else lib
     ctx.count("api:%s" % "x".join(v.kind for v in vars_))
     # split the lean outputs per dimension
     pos = 0
